@@ -27,6 +27,8 @@ func checkC01(c *Ctx, r *Report, tier string) {
 	c01R3(c, r, x)
 	c01R4(c, r, x)
 	c01R5(c, r, x)
+	r.Rule("C01.R6", "a rejected operation leaves nothing behind in the graph: no error return of an index method is reachable after a call that links, unlinks, prunes, stores or removes", 3)
+	noMutationBeforeErrorReturn(c, r, "C01.R6")
 }
 
 // --- R1 ---------------------------------------------------------------------------
